@@ -29,7 +29,7 @@ func commandMatrix(K string, full bool) []Op {
 		{"GETEX", K}, {"GETEX", K, "EX", "100"}, {"GETEX", K, "PERSIST"}, {"MGET", K, "ks"}, {"MSET", K, "v"}, {"MSETNX", K, "v"}, {"MSETNX", "kn2", "v", K, "w"}, {"APPEND", K, "v"}, {"STRLEN", K},
 		{"GETRANGE", K, "0", "-1"}, {"SUBSTR", K, "0", "0"}, {"SETRANGE", K, "1", "v"}, {"INCR", K}, {"DECR", K}, {"INCRBY", K, "2"}, {"DECRBY", K, "2"}, {"INCRBYFLOAT", K, "1.5"},
 		{"LCS", K, "ks"}, {"LCS", "ks", K, "LEN"},
-		{"SETBIT", K, "3", "1"}, {"GETBIT", K, "3"}, {"BITCOUNT", K}, {"BITCOUNT", K, "0", "-1"}, {"BITPOS", K, "1"}, {"BITPOS", K, "0"}, {"BITFIELD", K, "GET", "u4", "0"}, {"BITFIELD", K, "SET", "u4", "0", "1"}, {"BITFIELD", K, "INCRBY", "u4", "0", "1"},
+		{"SETBIT", K, "3", "1"}, {"SETBIT", K, "100", "1"}, {"SETBIT", K, "100", "0"}, {"GETBIT", K, "3"}, {"GETBIT", K, "100"}, {"BITCOUNT", K}, {"BITCOUNT", K, "0", "-1"}, {"BITPOS", K, "1"}, {"BITPOS", K, "0"}, {"BITFIELD", K, "GET", "u4", "0"}, {"BITFIELD", K, "SET", "u4", "0", "1"}, {"BITFIELD", K, "INCRBY", "u4", "0", "1"}, {"BITFIELD", K, "SET", "u8", "64", "1"}, {"BITFIELD", K, "INCRBY", "i8", "#9", "1"}, {"BITFIELD", K, "GET", "u8", "64"}, {"SETRANGE", K, "10", "v"}, {"SETRANGE", K, "0", ""},
 		{"BITFIELD_RO", K, "GET", "u4", "0"}, {"BITOP", "NOT", d, K}, {"BITOP", "AND", d, K, "ks"}, {"BITOP", "OR", d, "ks", K}, {"BITOP", "XOR", K, "ks", "ks"}, {"BITOP", "NOT", K, "ks"},
 		// lists
 		{"LPUSH", K, "v"}, {"RPUSH", K, "v"}, {"LPUSHX", K, "v"}, {"RPUSHX", K, "v"}, {"LPOP", K}, {"RPOP", K}, {"LPOP", K, "2"}, {"RPOP", K, "5"}, {"LLEN", K}, {"LINDEX", K, "0"}, {"LRANGE", K, "0", "-1"},
